@@ -1,96 +1,131 @@
 """C20 translator: the lexical tables the C20 models depend on -> coq/gen/C20Consts.v.
 
-Re-extracted from tools/goctl/pkg/parser/api/token/token.go and scanner/scanner.go on every run
-(regex over the declarations; fails loudly when a declaration is no longer found, which the runner
-reports as a broken obligation).  coq/theories/C20/GenProofs.v proves that today's values are the
-ones Model.v / Scanner.v are written for: a changed keyword, HTTP method, keyword text, operator
-character or white-space character breaks an obligation instead of passing silently."""
+Regenerated on every run from the tree under test -- not by reading the source text (a regular
+expression over token.go breaks when a declaration is merely moved, reordered or re-spelt) but by
+asking the COMPILED packages through their public API (executor `c20 -tables`):
+
+  * token.go: every token type that has a name (Type.String()), the keyword table (LookupKeyword on
+    every name and on a vocabulary of words), token.HttpMethods and IsHttpMethod, the keyword texts
+    (token.Syntax ... token.ImportKeyword);
+  * scanner.go: what the scanner does with ENUMERATED tiny inputs -- every 1-character text, "a<c>b" for
+    every ASCII character c and some others (white space, line counting), every 2-character text over an alphabet with one
+    representative of every lexical class, every 3-character text over a smaller one, and a list
+    of words (durations, "interface{}", @-keywords, comments, strings, dots, unicode, NUL).
+
+coq/theories/C20/GenProofs.v proves that Model.v / Scanner.v agree with today's tables: the model
+scanner returns the same tokens (kind, text, line bit), comments and error flag on every probe, the
+model parser's keyword / HTTP method tables are the tree's.  A changed keyword, method, token text,
+operator, white-space character or scanner rule breaks an obligation instead of passing silently."""
 import os
-import re
 
 import vlib
+import c20lib
 
-TOKEN = "tools/goctl/pkg/parser/api/token/token.go"
-SCANNER = "tools/goctl/pkg/parser/api/scanner/scanner.go"
+# one representative of every lexical class of scanner.go.  scanner.go reads RUNES (invalid UTF-8
+# becomes U+FFFD before the scanner sees it); the model reads bytes: the probes are valid UTF-8 texts
+UNI = ["µ", "é", "日", "\ufeff", "\u00a0", "\u2028", "\ufffd"]
+A2 = list("azAZ_nmshu09-*/=([{,.)}];:\"`@ \t\n\r\f\v#\\'\x00\x7f") + ["µ", "é", "日"]
+A3 = list("a1sm./*\"@\n {") + ["µ"]
+
+WORDS = ["type", "service", "info", "get", "returns", "import", "syntax", "group", "prefix", "jwt", "middleware", "timeout",
+         "maxBytes", "api", "map", "any", "interface", "post", "handler", "doc", "server", "string", "struct", "func", "go", "T",
+         "Get", "GET", "Type", "gets", "geT", "int", "bool", "error", "nil", "true", "var", "vars", "", "package", "default"]
+
+TEXTS = ["0", "007", "1", "18446744073709551616", "1s", "1ms", "1µs", "1ns", "1m", "1h", "1h30m", "1h30m5s", "1m5s10ms3µs7ns",
+         "1h2m3s4ms5µs6ns", "1s1s", "1.5s", "-1", "1_000", "0x10", "1e3", "1ss", "1sm", "3sx", "5ns3", "2h1ms", "1h2h", "1m2h", "1s2m",
+         "1ms2µ", "1µ", "1µs5ns", "1µs5", "1n", "1ns2s", "1m2", "1h2", "1s2", "1ms2", "1d", "1us", "1 s", "12ab", "1a",
+         "interface{}", "interface{", "interface {}", "interfaces{}", "interface{}x", "xinterface{}", "interface{ }",
+         "@doc", "@handler", "@server", "@docs", "@ doc", "@1", "@", "@@", "@doc(", "@Doc", "@handler1", "a@doc", "@doc@doc",
+         "/**/", "/***/", "/* a */", "/* a * b / c */", "/* a", "/*/", "/*", "/* * ", "/* a */ b", "/* a\nb */ c\nd", "// a\nb",
+         "//", "// a", "a // b\n// c\nd /* e */ f", "/ /", "/*a*//*b*/", "a/*x*/b",
+         "\"a\"", "\"a", "\"\"", "``", "`a\nb`", "`a", "\"a\nb\" c", "\"a\\\"", "\"a\\\" b\"", "`a\\`", "\"a`b\"", "`a\"b`", "\"//\"", "`/*`",
+         "a.b", "a..b", "a...b", "....", ".....", "......", ". .", "..", "...",
+         "a-b", "a_b1", "_", "__a", "A9z", "9a", "a9", "a b\nc\n\nd", "a\n\n\nb", "a\r\nb", "a\rb", "a\fb", "a\vb", "a\tb",
+         "﻿a", "é", "日本", "aé", "a\x00b", "\"a\x00b\"", "/* a\x00 */", "// a\x00b", "`a\x00`", "\x00a", "a \x00", "µs", "1µ s",
+         "get /a/:id (Req) returns ([]*Resp);", "type T {\n\tA map[string]int `json:\"a\"` // c\n}", "a b", "a b", "#", "a#b", "a$", "a?b",
+         "'a'", "a\\b", "a|b", "a&b", "a<b>", "a+b", "a%b", "a^b", "a!b", "a~b"]
 
 
-def _read(rel):
-    return open(os.path.join(vlib.REPO, rel)).read()
+def probes():
+    one = [chr(b) for b in range(128)] + UNI
+    res = list(one)
+    res += ["a" + c + "b" for c in one]
+    res += [x + y for x in A2 for y in A2]
+    res += [x + y + z for x in A3 for y in A3 for z in A3]
+    res += TEXTS
+    seen = set()
+    out = []
+    for t in res:
+        k = t.encode("utf-8")
+        if k and k not in seen:
+            seen.add(k)
+            out.append(list(k))
+    return out
 
 
 def extract():
-    c = {}
-    s = _read(TOKEN)
-    m = re.search(r"var keywords = map\[string\]Type\{(.*?)\n\}", s, re.S)
-    if not m:
-        raise RuntimeError("keywords table no longer found in " + TOKEN)
-    c["keywords"] = sorted(re.findall(r'"([a-z]+)":', m.group(1)))
-    m = re.search(r"var HttpMethods = \[\]interface\{\}\{([^}]*)\}", s)
-    if not m:
-        raise RuntimeError("HttpMethods no longer found in " + TOKEN)
-    c["http_methods"] = re.findall(r'"([a-z]+)"', m.group(1))
-    m = re.search(r"var httpMethod = map\[string\]placeholder\.Type\{(.*?)\n\}", s, re.S)
-    if not m:
-        raise RuntimeError("httpMethod table no longer found in " + TOKEN)
-    c["http_method_set"] = sorted(re.findall(r'"([a-z]+)":', m.group(1)))
-    for name in ("Syntax", "Info", "Service", "Returns", "Any", "TypeKeyword", "MapKeyword", "ImportKeyword"):
-        m = re.search(r"\b%s\s*=\s*\"([^\"]*)\"" % name, s)
-        if not m:
-            raise RuntimeError("constant %s no longer found in %s" % (name, TOKEN))
-        c[name] = m.group(1)
-    for name in ("AT_DOC", "AT_HANDLER", "AT_SERVER", "ANY"):
-        m = re.search(r"\b%s:\s*\"([^\"]*)\"" % name, s)
-        if not m:
-            raise RuntimeError("token text of %s no longer found in %s" % (name, TOKEN))
-        c["text_" + name] = m.group(1)
-    sc = _read(SCANNER)
-    m = re.search(r"func \(s \*Scanner\) NextToken\(\).*?\n}\n", sc, re.S)
-    if not m:
-        raise RuntimeError("NextToken no longer found in " + SCANNER)
-    body = m.group(0)
-    c["single_char_tokens"] = sorted(re.findall(r"case '(.)':\s*\n\s*return s\.newToken\(token\.(\w+)\), nil", body))
-    m = re.search(r"func \(s \*Scanner\) isWhiteSpace\(b rune\) bool \{(.*?)\n\}", sc, re.S)
-    if not m:
-        raise RuntimeError("isWhiteSpace no longer found in " + SCANNER)
-    ws = re.findall(r"b == '(\\?.)'", m.group(1))
-    c["white_space"] = sorted(set(ws))
-    m = re.search(r"func \(s \*Scanner\) scanIntOrDuration\(\).*?case ([^:]*):\s*\n\s*return s\.scanDuration", sc, re.S)
-    if not m:
-        raise RuntimeError("scanIntOrDuration no longer found in " + SCANNER)
-    c["duration_starts"] = re.findall(r"'(.)'", m.group(1))
-    m = re.search(r'switch letters \{(.*?)default:', sc, re.S)
-    if not m:
-        raise RuntimeError("scanAt no longer found in " + SCANNER)
-    c["at_words"] = sorted(re.findall(r'case "([a-z]+)":', m.group(1)))
-    return c
+    ok, binpath = c20lib.build()
+    if not ok:
+        raise RuntimeError("the executor does not build against the current tree: " + binpath[-600:])
+    ps = probes()
+    payload = [{"words": WORDS, "probes": [{"id": i, "bytes": p} for i, p in enumerate(ps)]}]
+    rc, out, res = vlib.go_run(binpath, payload, tag="c20tab", timeout=600, args=["-tables"])
+    if rc != 0 or len(res) != len(ps) + 1:
+        raise RuntimeError("c20 -tables rc=%s (%d lines for %d probes): %s" % (rc, len(res), len(ps), out[-600:]))
+    tab = res[0]
+    outs = res[1:]
+    for i, o in enumerate(outs):
+        if o.get("id") != i:
+            raise RuntimeError("c20 -tables: probe %d answered out of order" % i)
+    return tab, ps, outs
 
 
 def q(s):
+    if any(ord(ch) < 32 or ord(ch) > 126 for ch in s):
+        raise RuntimeError("table text %r cannot be written as a Gallina string" % s)
     return '"' + s.replace('"', '""') + '"'
 
 
+def nats(bs):
+    return "[" + ";".join(str(b) for b in bs) + "]"
+
+
+def b(x):
+    return "true" if x else "false"
+
+
 def regen():
-    c = extract()
-    esc = {"\\n": 10, "\\t": 9, "\\r": 13, "\\f": 12, "\\v": 11, " ": 32}
-    ws_codes = sorted(esc[w] for w in c["white_space"])
-    lines = ["(* generated by tools/c20consts.py from %s and %s -- do not edit *)" % (TOKEN, SCANNER),
+    tab, ps, outs = extract()
+    lines = ["(* generated by tools/c20consts.py from the compiled token and scanner packages of the tree under test",
+             "   (executor `c20 -tables`) -- do not edit *)",
              "From Coq Require Import List String.", "Import ListNotations.", "Open Scope string_scope.", "",
-             "Definition gen_keywords : list string := [%s]." % "; ".join(q(k) for k in c["keywords"]),
-             "Definition gen_http_methods : list string := [%s]." % "; ".join(q(k) for k in c["http_methods"]),
-             "Definition gen_http_method_set : list string := [%s]." % "; ".join(q(k) for k in c["http_method_set"])]
+             "(* every token type with a name: Type.String() *)",
+             "Definition gen_types : list string := [%s]." % "; ".join(q(n) for _, n in tab["types"]),
+             "(* token.HttpMethods *)",
+             "Definition gen_http_methods : list string := [%s]." % "; ".join(q(m) for m in tab["http"]),
+             "(* word, LookupKeyword finds it, name of the type it finds, IsHttpMethod *)",
+             "Definition gen_words : list (string * bool * string * bool) := [%s]." %
+             "; ".join("(%s, %s, %s, %s)" % (q(w[0]), b(w[1]), q(w[2]), b(w[3])) for w in tab["words"])]
     for name in ("Syntax", "Info", "Service", "Returns", "Any", "TypeKeyword", "MapKeyword", "ImportKeyword"):
-        lines.append("Definition gen_kw_%s : string := %s." % (name, q(c[name])))
-    for name in ("AT_DOC", "AT_HANDLER", "AT_SERVER", "ANY"):
-        lines.append("Definition gen_text_%s : string := %s." % (name, q(c["text_" + name])))
-    lines.append("Definition gen_single_char_tokens : list (string * string) := [%s]." %
-                 "; ".join("(%s, %s)" % (q(ch), q(nm)) for ch, nm in c["single_char_tokens"]))
-    lines.append("Definition gen_white_space : list nat := [%s]." % "; ".join(str(x) for x in ws_codes))
-    lines.append("Definition gen_duration_starts : list string := [%s]." % "; ".join(q(x) for x in c["duration_starts"]))
-    lines.append("Definition gen_at_words : list string := [%s]." % "; ".join(q(x) for x in c["at_words"]))
+        lines.append("Definition gen_kw_%s : string := %s." % (name, q(tab["consts"][name])))
+    lines.append("(* scanner.go on enumerated inputs: bytes of the input, no scanner error, tokens (kind name, bytes of the text,")
+    lines.append("   starts on a later line than the token before), comments (number of tokens before it, bytes of the text) *)")
+    lines.append("Definition gen_scan_probes : list (list nat * bool * list (string * list nat * bool) * list (nat * list nat)) := [")
+    rows = []
+    for p, o in zip(ps, outs):
+        toks = "[" + ";".join("(%s,%s,%s)" % (q(t[0]), nats(t[1]), b(t[2])) for t in o["toks"]) + "]"
+        cmts = "[" + ";".join("(%d,%s)" % (c[0], nats(c[1])) for c in o["cmts"]) + "]"
+        rows.append("(%s,%s,%s,%s)" % (nats(p), b(o["ok"]), toks, cmts))
+    lines.append(";\n".join(rows))
+    lines.append("]%nat.")
     text = "\n".join(lines) + "\n"
     path = os.path.join(vlib.COQ, "gen", "C20Consts.v")
     if not os.path.exists(path) or open(path).read() != text:
         with open(path, "w") as f:
             f.write(text)
-    return ["C20 lexical tables regenerated: %d keywords, %d HTTP methods, %d one-character tokens"
-            % (len(c["keywords"]), len(c["http_methods"]), len(c["single_char_tokens"]))]
+    nk = sum(1 for w in tab["words"] if w[1])
+    nerr = sum(1 for o in outs if not o["ok"])
+    nill = sum(1 for o in outs if o["toks"] and o["toks"][-1][0] == "ILLEGAL")
+    return ["C20 lexical tables regenerated from the compiled packages: %d token types, %d keywords, %d HTTP methods, "
+            "%d scanner probes (%d scanner errors, %d ILLEGAL tokens)"
+            % (len(tab["types"]), nk, len(tab["http"]), len(ps), nerr, nill)]
